@@ -312,6 +312,21 @@ def run(chk: Check):
                 for k in known:
                     chk.fail(f"grid of parameter {j}: " + k, {"case": {"kind": "build", "bounds": bounds, "precision": prec, "parameter": j}},
                              signature=SIG_SMALL_PREC)
+        if grids is not None and len(str(prec)) % 3 == 0 and kind != "buildq":
+            # what the library hands out is the caller's to do with as it pleases: the grid arrays of this space are overwritten in place, then the SAME
+            # specification is declared again - the new space is the documented one
+            try:
+                for g in grids:
+                    if g.flags.writeable:
+                        g *= 3.0; g += 1.0
+                s_again = ss.SearchSpace(copy.deepcopy(bounds), copy.deepcopy(prec), verbose=False)
+                again = f"ok {len(s_again.param_grid)} " + " ".join(fl(g) for g in s_again.param_grid) + f" {s_again.space_size}"
+            except Exception as e:  # noqa: BLE001
+                again = f"raised {type(e).__name__}"
+            chk.count("same_specification_declared_again_after_the_caller_overwrote_the_returned_grid")
+            if again != ans:
+                chk.fail(f"SearchSpace({bounds}, {prec}) declared a second time - after the caller overwrote, in place, the param_grid arrays the first space had returned - "
+                         f"is not the documented space any more: {again[:160]}", {"case": {"kind": "build_again", "bounds": bounds, "precision": prec}})
 
 
 def scramble(obj):
@@ -339,7 +354,14 @@ def replay(path: Path) -> int:
         c = fi.get("case")
         if not c:
             continue
-        if c["kind"] == "val":
+        if c["kind"] == "build_again":
+            s1 = ss.SearchSpace(copy.deepcopy(c["bounds"]), copy.deepcopy(c["precision"]), verbose=False)
+            ref = [np.array(g, copy=True) for g in s1.param_grid]
+            for g in s1.param_grid:
+                g *= 3.0; g += 1.0
+            s2 = ss.SearchSpace(copy.deepcopy(c["bounds"]), copy.deepcopy(c["precision"]), verbose=False)
+            fails = any(a.tobytes() != b.tobytes() for a, b in zip(ref, s2.param_grid))
+        elif c["kind"] == "val":
             fails = impl_check(c["bounds"], c["precision"]) != oracle_validation(c["bounds"], c["precision"])
         else:
             try:
